@@ -2,4 +2,10 @@ enum Sample {
     Ping,
     Add(u64, Vec<u8>),
     Named { a: u64 },
+    #[rpc]
+    Status(RpcReplyPort<u64>),
+    #[rpc]
+    Query { reply: RpcReplyPort<u16> },
+    #[rpc]
+    Ask(u64, RpcReplyPort<u64>),
 }
